@@ -282,6 +282,45 @@ func eachC16(shard, shards int, ev *evid.Rec, emit func(caseC16) bool) {
 			}
 		}
 	}
+	// near misses: every single-character substitution, insertion and deletion of valid literals over
+	// an alphabet of the characters a hand-written scanner or a lenient number parser could mistake
+	// (signs, blanks, other digits scripts, wrong separators)
+	if shard == 0 {
+		alphabet := []string{"0", "1", "9", "+", "-", ":", " ", "\t", "a", "p", "m", "h", "<", ">", "/", ".", "_", "１", "٣", "x", "?", "!"}
+		near := func(part string, bases []string) bool {
+			seen := map[string]bool{}
+			for _, b := range bases {
+				rs := []rune(b)
+				for i := 0; i <= len(rs); i++ {
+					var variants []string
+					for _, a := range alphabet {
+						variants = append(variants, string(rs[:i])+a+string(rs[i:])) // insertion
+						if i < len(rs) {
+							variants = append(variants, string(rs[:i])+a+string(rs[i+1:])) // substitution
+						}
+					}
+					if i < len(rs) {
+						variants = append(variants, string(rs[:i])+string(rs[i+1:])) // deletion
+					}
+					for _, v := range variants {
+						if seen[v] {
+							continue
+						}
+						seen[v] = true
+						if !emit(caseC16{Part: part, S: v}) {
+							return false
+						}
+					}
+				}
+			}
+			return true
+		}
+		if !near("time-string", []string{"8:00", "9:05", "23:59", "0:00", "12:30pm", "1:05am", "<23:59", "0:00>", "<8:00am", "11:59pm>", "24:00", "<24:00"}) ||
+			!near("date-string", []string{"2020-02-29", "2020/02/29", "0000-01-01", "9999-12-31", "1999-12-01"}) ||
+			!near("duration-string", []string{"1h30m", "-45m", "+2h", "0m", "12h05m", "-1h1m", "90m"}) {
+			return
+		}
+	}
 	// a few more shapes around the edges
 	if shard == 0 {
 		for _, s := range []string{"", "h", "m", "1h1h", "1m1h", "1h 1m", "-", "+", "--1h", "1.5h", "1H", "5", "1h5", " 1h", "1h ", "9223372036854775807m", "-9223372036854775807m", "153722867280912930h7m", "00000000000000000000001h"} {
